@@ -135,7 +135,9 @@ class NumVec:
         if isinstance(e, V.VectorCross):
             return cross3(self.vec(e.args[0]), self.vec(e.args[1]))
         if isinstance(e, sp.Derivative) and isinstance(e.expr, V.AppliedVectorFunction):
-            return tuple(sp.sympify(x) for x in self.fa[("vd", str(e.expr.func.name))])
+            order = sum(int(n) for _, n in e.variable_count)
+            key = ("vd", str(e.expr.func.name), order)        # higher derivatives have their own assignment when one is given
+            return tuple(sp.sympify(x) for x in self.fa[key if key in self.fa else ("vd", str(e.expr.func.name))])
         if isinstance(e, V.AppliedVectorFunction):
             return tuple(sp.sympify(x) for x in self.fa[("vf", str(e.func.name))])
         if isinstance(e, sp.Add):
@@ -167,6 +169,8 @@ class NumVec:
             return sp.sympify(self.fa[("sf", str(e.func))])
         if isinstance(e, sp.Derivative) and isinstance(e.expr, sp.core.function.AppliedUndef):
             return sp.sympify(self.fa[("sd", str(e.expr.func))])
-        if isinstance(e, (sp.Add, sp.Mul, sp.Pow, sp.Abs)):
-            return e.func(*[self.scal(a) for a in e.args])
+        if isinstance(e, (sp.Add, sp.Mul, sp.Pow, sp.Abs)) or (isinstance(e, sp.Function) and not isinstance(e, sp.core.function.AppliedUndef)):
+            return e.func(*[self.scal(a) for a in e.args])          # elementary functions (log, exp, cos ...) of scalar arguments
+        if e in (sp.pi, sp.E, sp.I):
+            return e
         raise ValueError(f"scalar node {type(e).__name__}")
